@@ -210,7 +210,8 @@ def check_error(e, files, crlf):
             lines = text.split("\n")
             the_line = lines[ln].rstrip("\r") if ln < len(lines) else ""
             # ariadne renders tabs as spaces
-            if the_line.strip() and the_line.replace("\t", "    ").strip() not in disp.replace("\t", "    "):
+            # (the renderer expands tabs to its own tab stops: compare with white space removed)
+            if the_line.strip() and re.sub(r"\s+", "", the_line) not in re.sub(r"\s+", "", disp):
                 fails.append("display_line")
             if len(files) > 1 and path and path not in disp:
                 fails.append("display_file")
@@ -243,7 +244,7 @@ def judge(w, sources, root, main_path, target, token, crlf=False):
         if target:
             req["target"] = target
         r = w.call(req)
-        files = {1: ("", sources[0][1]), 0: ("", sources[0][1])}
+        files = {1: ("", sources[0][1])}
     else:
         req = {"op": "tree_compile", "sources": [[p, t] for p, t in sources], "main_path": main_path, "display": "plain"}
         if target:
@@ -377,6 +378,44 @@ def _shard(seed, shard, bases, n):
     return viols, obs
 
 
+def _natural_shard(items):
+    """Errors nobody planted: whatever the compiler reports for these sources is held to the
+    generic clauses (reason, bounds, boundaries, location, display); no offending token is known."""
+    w = core.Worker()
+    viols, seen = [], set()
+    obs = {"natural_cases": 0, "natural_errors": 0, "natural_with_span": 0, "natural_multiline_spans": 0}
+    for origin, src in items:
+        out, info, r = judge(w, [("", src)], None, [], "sql.generic", None, False)
+        obs["natural_cases"] += 1
+        obs["natural_errors"] += info["errors"]
+        obs["natural_with_span"] += info["with_span"]
+        obs["natural_multiline_spans"] += info.get("multiline_spans", 0)
+        for (sym, det) in out:
+            if sym.startswith("panic:"):
+                # a panic is C12's business (and is reported there with its own attribution)
+                obs["natural_panics_left_to_C12"] = obs.get("natural_panics_left_to_C12", 0) + 1
+                continue
+            shape = "natural:%s/%s" % (origin, "ascii" if src.isascii() else "multibyte")
+            key = (sym, shape)
+            viols.append({"property": "C13", "symptom": sym, "shape": shape,
+                          "witness": {"sources": [("", src)], "main_path": [], "target": "sql.generic", "token": None, "crlf": False, "shape": shape} if key not in seen else None,
+                          "detail": det})
+            seen.add(key)
+    w.close()
+    return viols, obs
+
+
+def natural_sources(tier, seed):
+    from ..gen import gnest, gtext
+    rng = core.shard_rng(seed, "C13", 4242)
+    items = [("gnest", src) for _, src in gnest.two_level()]
+    base = [s for s in corpus.sources() if len(s) < 1500]
+    n = 3000 if tier == "quick" else 60000
+    for _ in range(n):
+        items.append(("mutant", gtext.mutate(rng, rng.choice(base), rng.choice([1, 1, 2]))))
+    return items
+
+
 def run(tier, seed):
     run = core.Run("C13", tier, seed)
     rng = core.shard_rng(seed, "C13", 999)
@@ -397,6 +436,11 @@ def run(tier, seed):
         run.extend(v)
         obs["cells"] |= set(map(tuple, o.pop("cells")))
         core.merge_counts(obs, o)
+    nat = natural_sources(tier, seed)
+    res = core.run_shards(_natural_shard, [dict(items=nat[i::N]) for i in range(N)])
+    for v, o in res:
+        run.extend(v)
+        core.merge_counts(obs, o)
     best = {}
     for v in run.violations:
         k = (v["symptom"], v["shape"])
@@ -405,9 +449,10 @@ def run(tier, seed):
     run.violations = list(best.values())
     cells = obs.pop("cells")
     run.coverage = {
-        "evaluations": obs.get("cases", 0),
+        "evaluations": obs.get("cases", 0) + obs.get("natural_cases", 0),
         "distinct_nontrivial": len(cells),
         "rule": "case = valid base program + one injected error (lexical / syntactic / name-resolution / type / SQL-stage) + prefix content (ASCII, 2/3/4-byte, combining) placed in a comment, string, backtick identifier, after the error or on the error's line, in a single file or a 2-file project (error in root or non-root file), optionally CRLF; "
+                "plus a 'natural' phase: every expression kind in every syntactic slot (G-nest) and token-level mutants of corpus programs, whose errors (whatever they are) are held to the generic clauses without a known token; "
                 "distinct non-trivial = distinct (error class, prefix class, layout) cells for which the compiler returned at least one error",
         "base_programs": len(bases),
         "samples": [],
